@@ -468,7 +468,7 @@ TRIPLE_CLASSES = ["random", "random", "random", "del_vs_edit", "del_vs_edit", "i
                   "minor_diff", "retype", "empty_source", "both_append_outputs", "exec_count", "fixture",
                   "nbmeta_conflict", "out_meta_conflict", "multi_line_meta", "del_vs_transient", "del_vs_transient",
                   "both_insert_lists", "nul_in_source", "same_insert_edit_below", "transient_meta_conflict",
-                  "del_vs_output_edit", "large_outputs", "long_notebook", "wide_metadata", "both_rerun", "both_rerun", "same_size_sides", "repeated_content", "same_frame_insert", "cr_progress", "both_reid", "same_id_insert"]
+                  "del_vs_output_edit", "large_outputs", "long_notebook", "wide_metadata", "both_rerun", "both_rerun", "same_size_sides", "repeated_content", "same_frame_insert", "cr_progress", "both_reid", "same_id_insert", "slash_keys"]
 
 
 def merge_triple(gen, cls=None, minor=None, plain_eol=False):
@@ -945,6 +945,43 @@ def merge_triple(gen, cls=None, minor=None, plain_eol=False):
             elif follow == "remote_replaces":
                 rem["cells"][pos + 1] = gen.cell(m)
         info = {"pos": pos, "how": how, "follow": follow}
+    elif cls == "slash_keys":
+        # member names that contain the path separator ("image/png", "widgets/state") next to nested sections spelling the
+        # same names (image -> png): the containers under both are edited, so that decisions on /metadata/image/png (one
+        # member) and /metadata/image/png (two levels) stand next to each other
+        a_, b_ = r.choice([("widgets", "state"), ("image", "png"), ("a", "b")])
+        tgt = r.choice(["nb", "cell", "output"])
+        blockA = {"v": [1, 2], "t": "x"}
+        blockB = {"v": [1], "t": "y"}
+        def holder(nb):
+            if tgt == "nb" or not nb["cells"]:
+                return nb["metadata"]
+            if tgt == "cell":
+                return nb["cells"][0]["metadata"]
+            return nb["cells"][0]["outputs"][0]["metadata"]
+        if tgt == "output":
+            c = _code_cell(gen, m, "show()\n", [{"output_type": "display_data", "metadata": {}, "data": {"text/plain": "<x>"}}])
+            for nb in (base, loc, rem):
+                nb["cells"].insert(0, copy.deepcopy(c))
+        for nb in (base, loc, rem):
+            h = holder(nb)
+            h[a_ + "/" + b_] = copy.deepcopy(blockA)
+            h[a_] = {b_: copy.deepcopy(blockB), "other": 1}
+        how = r.choice(["split", "split", "both_local", "both_sides_each"])
+        hl, hr = holder(loc), holder(rem)
+        if how == "split":
+            hl[a_ + "/" + b_]["v"] = [1, 2, 3]
+            hr[a_][b_]["v"] = [1, 9]
+        elif how == "both_local":
+            hl[a_ + "/" + b_]["t"] = "changed"
+            hl[a_][b_]["t"] = "changed too"
+            hr[a_]["other"] = 2
+        else:
+            hl[a_ + "/" + b_]["v"] = [0, 1, 2]
+            hl[a_][b_]["t"] = "L"
+            hr[a_ + "/" + b_]["t"] = "R"
+            hr[a_][b_]["v"] = [1, 5]
+        info = {"target": tgt, "how": how, "names": [a_, b_]}
     elif cls == "nul_in_source":
         # a NUL character inside a source (valid JSON, valid notebook): external text tools treat the text as binary
         lines = ["line one of %d" % r.randrange(99), "binary \x00 payload pasted here", "line three", "line four"]
